@@ -39,7 +39,7 @@ def wf (progs : List (List Op)) : Bool :=
 /-- the full property, for the code as it is (both pools in use) -/
 def C15_full : Prop :=
   ∀ progs, wf progs = true → ∀ acts : List Act,
-    ownReply (runActs (init true progs) acts) = true ∧ noLoss (runActs (init true progs) acts) = true
+    ownReply (runActs (init .asIs progs) acts) = true ∧ noLoss (runActs (init .asIs progs) acts) = true
 
 /-! ### refutation (a): an in-time reply is dropped — replayed on the real code (corpus/C15/witness.case) -/
 
@@ -53,8 +53,8 @@ def lossActs : List Act :=
    .run 2, .run 2, .run 2, .run 1, .run 1, .run 1, .run 0, .run 2, .run 2, .timeout 1, .run 1, .run 1]
 
 theorem C15_loss_witness :
-    wf lossProgs = true ∧ noLoss (runActs (init true lossProgs) lossActs) = false ∧
-    (runActs (init true lossProgs) lossActs).threads.map (·.hist.reverse) =
+    wf lossProgs = true ∧ noLoss (runActs (init .asIs lossProgs) lossActs) = false ∧
+    (runActs (init .asIs lossProgs) lossActs).threads.map (·.hist.reverse) =
       [[(.ask 1, .reply 1)], [(.ask 2, .reply 2), (.ask 3, .reply 3), (.ask 4, .timeout)],
        [(.handle, .handled 1), (.handle, .handled 2), (.handle, .handled 3), (.handle, .handled 4)]] := by decide
 
@@ -69,8 +69,8 @@ def crossActs : List Act :=
   [.run 0, .run 2, .run 2, .timeout 0, .run 0, .run 0, .run 1, .run 2, .run 1, .run 1]
 
 theorem C15_cross_witness :
-    wf crossProgs = true ∧ ownReply (runActs (init true crossProgs) crossActs) = false ∧
-    ((runActs (init true crossProgs) crossActs).threads.map (·.hist.reverse)).take 2 =
+    wf crossProgs = true ∧ ownReply (runActs (init .asIs crossProgs) crossActs) = false ∧
+    ((runActs (init .asIs crossProgs) crossActs).threads.map (·.hist.reverse)).take 2 =
       [[(.ask 1, .timeout)], [(.ask 2, .reply 1)]] := by decide
 
 theorem C15_refuted : ¬ C15_full := by
@@ -81,7 +81,7 @@ theorem C15_refuted : ¬ C15_full := by
 
 /-- each clause fails on its own -/
 theorem C15_refuted_ownReply :
-    ¬ (∀ progs, wf progs = true → ∀ acts, ownReply (runActs (init true progs) acts) = true) := by
+    ¬ (∀ progs, wf progs = true → ∀ acts, ownReply (runActs (init .asIs progs) acts) = true) := by
   intro h
   have := h crossProgs C15_cross_witness.1 crossActs
   rw [C15_cross_witness.2.1] at this
